@@ -1004,6 +1004,9 @@ func (g *Gen) enterLoop(h *ssa.BasicBlock, li *loopInfo, st State, fwd []predEdg
 	if g.ct != nil {
 		vars := g.localsAt(h, true, st)
 		for _, c := range g.ct.LoopInv[li.ord] {
+			if !c.active(g.prog.curProp) {
+				continue
+			}
 			env := g.envAt(st, g.entryState(), g.pkg, vars)
 			t := env.compileBool(c.Expr)
 			if g.invariantStale(env, c) {
@@ -1041,6 +1044,9 @@ func (g *Gen) checkInvariant(h *ssa.BasicBlock, li *loopInfo, st State, from *ss
 		g.curHead = h
 		vars := g.localsAt(h, true, st)
 		for i, c := range g.ct.StepLemma[li.ord] {
+			if !c.active(g.prog.curProp) {
+				continue
+			}
 			env := g.envAt(st, g.entryState(), g.pkg, vars)
 			env.inGoal = true
 			t := env.compileBool(c.Expr)
@@ -1068,7 +1074,7 @@ func (g *Gen) checkInvariantAt(h *ssa.BasicBlock, li *loopInfo, st State, cond s
 	}
 	vars := g.localsAt(h, true, st)
 	for _, c := range g.ct.LoopInv[li.ord] {
-		if c.Free {
+		if c.Free && c.active(g.prog.curProp) {
 			// definitional axioms hold in every state: available when the invariant is (re-)established
 			env := g.envAt(st, g.entryState(), g.pkg, vars)
 			t := env.compileBool(c.Expr)
@@ -1078,6 +1084,9 @@ func (g *Gen) checkInvariantAt(h *ssa.BasicBlock, li *loopInfo, st State, cond s
 		}
 	}
 	for i, c := range g.ct.LoopInv[li.ord] {
+		if !c.active(g.prog.curProp) {
+			continue
+		}
 		if c.Free {
 			g.assumed["definitional axiom assumed at loop "+fmt.Sprint(li.ord)+" of "+funcDisplayName(g.fn)+": "+c.Text] = true
 			continue
